@@ -264,7 +264,8 @@ impl<'a, F: IVP> SolOut for DefaultSolOut<'a, F> {
                             let mut e = d;
 
                             for _ in 0..MAXITER {
-                                if fb * fc > 0.0 {
+                                // same strict sign (a product would underflow for tiny values)
+                                if (fb > 0.0 && fc > 0.0) || (fb < 0.0 && fc < 0.0) {
                                     c = a;
                                     fc = fa;
                                     d = b - a;
